@@ -300,3 +300,24 @@ CLAIMED["C20"] = {
             "Buffer size, end-of-headers marker, verb prefix and the binary's entry point are re-extracted from the source every run.",
     "technique": "Lean 4 theorems (structural induction over read results, list lemmas) over a model of the request loop + translated constants + process-level differential correspondence and liveness oracle",
 }
+
+CLAIMED["C01"] = {
+    "text": "Partial. Proved in Lean, for the abstract network model (any number of nodes, any segment structure incl. rings and several "
+            "ports of one instance on a segment, any ranking, non-relaying instances allowed): in every fixed point each Slave port "
+            "follows a Master port attached to its own segment, of a different live instance whose stepsRemoved is exactly one less "
+            "and whose grandmaster attributes it carries (slave_follows_master_port); an instance that advertises is in the "
+            "grandmaster state or has a Slave port itself (master_port_node); hence every slave reaches, over exactly stepsRemoved "
+            "parent hops, a live instance in the grandmaster state whose own attributes are the ones advertised - parent chains "
+            "strictly decrease, there is no loop and no phantom grandmaster (slave_reaches_live_grandmaster). Tie, at two levels: "
+            "networks of real PtpInstances are simulated (2-8 nodes, lines, stars, rings, shared segments, dual-homed instances, "
+            "random graphs, all rankings, cold start and single faults) with every call of every instance compared with the Lean "
+            "instance model of C05-C12, and at every judged point the instances' states are checked to be a fixed point of the "
+            "abstract model. NOT proved (RootIsBestStmt): that in a relay-connected network the root is the best-ranked instance and "
+            "unique, that every segment has one Master port, and the convergence / re-convergence time - these are decided by the "
+            "oracle on the sampled scenarios (best clock sole grandmaster, one Slave port, decreasing chain to it, one Master port per "
+            "segment, no change during an observation window).",
+    "note": "Trusted: Lean kernel; the network simulator (delivery, timers, BMCA phases, faults); generators. Known finding: networks "
+            "with a non-relaying instance besides the best clock (clockClass<128, slave-only, master-only port) do not meet the "
+            "property's literal wording under IEEE 1588 itself; their converged states are still fixed points of the abstract model.",
+    "technique": "Lean 4 theorems about fixed points of an abstract network model (membership lemmas, strong induction on stepsRemoved) + per-call differential correspondence of every instance + fixed-point check of converged states + network-level oracle (sampling) for convergence",
+}
